@@ -7,6 +7,7 @@ fragmentation/reassembly, byte accounting of the posix back ends).  Payload
 equality itself is a runtime quantity and is not decided."""
 from ..core import (walk, show, const_of, last_field, truth_of, same_expr, strip_addr, apath, AnalysisBroken)
 from .. import guards as G
+from ..guards import var_defs, reaching_defs, resolve
 from . import c16
 
 EXPLANATION = ("C01: per stream transport (tcp, ipc, socket-fd) the completion callbacks resubmit the inner aio until its iov is "
@@ -48,6 +49,11 @@ def nz_edges(fn, match):
         if t:
             out[b.id] = 0 if t > 0 else 1
             continue
+        c = resolve(fn, c, (b.id, len(b.elems)))
+        t = truth_of(c, match)
+        if t:
+            out[b.id] = 0 if t > 0 else 1
+            continue
         neg = 0
         while c is not None and c.get("k") == "un" and c.get("op") == "!":
             c = c["e"]
@@ -61,39 +67,6 @@ def nz_edges(fn, match):
             out[b.id] = 0 ^ neg
         elif match(l) and ((op == "<=" and const_of(r) == 0) or (op == "<" and const_of(r) == 1)):
             out[b.id] = 1 ^ neg
-    return out
-
-
-def var_defs(fn, name):
-    """assignment / initialiser sites of local `name`: [(site-pos, rhs-expanded)]"""
-    out = []
-    for s in fn.sites():
-        n = s.node
-        if n.get("k") == "asg" and n.get("op") == "=" and n["lhs"].get("k") == "var" and n["lhs"]["n"] == name:
-            out.append(((s.b, s.i), fn.expand(n["rhs"])))
-        elif n.get("k") == "decls":
-            for d in n["d"]:
-                if d["n"] == name and d.get("init") is not None:
-                    out.append(((s.b, s.i), fn.expand(d["init"])))
-    # assignments nested in conditions ((aio = f()) == NULL) are their own sub-nodes of a site
-    for b in fn.blocks.values():
-        for i, e in enumerate(b.elems):
-            for n in walk(fn.expand(e)):
-                if n.get("k") == "asg" and n.get("op") == "=" and n["lhs"].get("k") == "var" and n["lhs"]["n"] == name:
-                    if not any(p == (b.id, i) for p, _ in out):
-                        out.append(((b.id, i), fn.expand(n["rhs"])))
-    return out
-
-
-def reaching_defs(fn, name, pos):
-    """definitions of local `name` that can reach position pos without an intervening definition"""
-    defs = var_defs(fn, name)
-    dpos = {p for p, _ in defs}
-    out = []
-    for p, rhs in defs:
-        seen = fn.reach((p[0], p[1] + 1), blocked=lambda b, i, e: (b, i) in dpos and (b, i) != pos)
-        if pos in seen:
-            out.append((p, rhs))
     return out
 
 
@@ -446,16 +419,14 @@ def rule_r2(ctx):
             r.ob(ss, "prefix written big-endian into %s[%d..%d]" % (txf, tx_off, tx_off + 7))
         # value = nni_msg_len(msg) + nni_msg_header_len(msg)
         ok_val = False
-        if val is not None and val.get("k") == "var":
-            rd = reaching_defs(ss, val["n"], puts[0][2])
-            for _, e in rd:
-                e = ss.expand(e)
-                if e.get("k") == "bin" and e["op"] == "+":
-                    a, b = ss.expand(e["lhs"]), ss.expand(e["rhs"])
-                    fns = {a.get("fn"), b.get("fn")}
-                    if fns == {"nni_msg_len", "nni_msg_header_len"} and same_expr(a["args"][0], b["args"][0]):
-                        ok_val = len(rd) == 1
-                        msgvar = a["args"][0]
+        if val is not None:
+            e = resolve(ss, val, puts[0][2])
+            if e is not None and e.get("k") == "bin" and e["op"] == "+":
+                a, b = e["lhs"], e["rhs"]
+                fns = {a.get("fn"), b.get("fn")}
+                if fns == {"nni_msg_len", "nni_msg_header_len"} and same_expr(a["args"][0], b["args"][0]):
+                    ok_val = True
+                    msgvar = a["args"][0]
         if not ok_val:
             ctx.fail(r, ss, "prefix value is not body+header length", ss.line_of(*puts[0][2]),
                      "the value written into the length prefix is not nni_msg_len(msg) + nni_msg_header_len(msg): the "
@@ -464,13 +435,14 @@ def rule_r2(ctx):
             r.ob(ss, "prefix value = nni_msg_len(msg) + nni_msg_header_len(msg)")
             # msg is the message of the head of the send queue
             good = False
-            if msgvar.get("k") == "var":
-                rd = reaching_defs(ss, msgvar["n"], puts[0][2])
-                if len(rd) == 1 and is_call(rd[0][1], "nni_aio_get_msg"):
-                    a = ss.expand(rd[0][1]["args"][0])
-                    if a.get("k") == "var":
-                        rd2 = reaching_defs(ss, a["n"], rd[0][0])
-                        good = bool(rd2) and all(is_call(x, "nni_list_first") for _, x in rd2)
+            mv = resolve(ss, msgvar, puts[0][2])
+            if is_call(mv, "nni_aio_get_msg"):
+                a = ss.expand(mv["args"][0])
+                if is_call(a, "nni_list_first"):
+                    good = True
+                elif a.get("k") == "var":
+                    rd2 = reaching_defs(ss, a["n"], puts[0][2])
+                    good = bool(rd2) and all(is_call(x, "nni_list_first") for _, x in rd2)
             if good:
                 r.ob(ss, "message measured is the one at the head of the send queue")
             else:
@@ -641,7 +613,7 @@ def iov_order(ctx, r, fn, first_index_is_prefix):
             n = t.node
             if t.b == s.b and n["lhs"].get("k") == "mem" and n["lhs"]["f"] == "iov_len" and \
                     same_expr(n["lhs"]["b"], s.node["lhs"]["b"]):
-                mate = fn.expand(n["rhs"])
+                mate = resolve(fn, n["rhs"], (t.b, t.i))
         if mate is None or mate.get("fn") not in lenfn or not same_expr(mate["args"][0], rhs["args"][0]):
             ctx.fail(r, fn, "%s paired with the wrong length" % rhs["fn"], s.line,
                      "the vector for %s has length %s" % (show(rhs), show(mate)))
@@ -674,8 +646,19 @@ def iov_order(ctx, r, fn, first_index_is_prefix):
             else:
                 r.ob(fn, "%s++ between header and body vectors" % v)
             if first_index_is_prefix:
-                # counter is past the prefix when the header is stored
-                if not fn.dominated_by((hs.b, hs.i), blocked=lambda b, i, e: (b, i) in incs):
+                # counter is past the prefix when the header is stored: every way to the header store passes `v++`, or an
+                # assignment v = K with K >= 1 that no later v = 0 undoes
+                past = set(incs)
+                zero = set()
+                for s in fn.assigns():
+                    if s.node["lhs"].get("k") == "var" and s.node["lhs"]["n"] == v and s.node.get("op") == "=":
+                        kv = const_of(fn.expand(s.node["rhs"]))
+                        if kv is not None and kv >= 1:
+                            past.add((s.b, s.i))
+                        else:
+                            zero.add((s.b, s.i))
+                after_zero = any(G.reaches(fn, (z[0], z[1] + 1), [(hs.b, hs.i)], blocked=past) for z in zero)
+                if after_zero or not fn.dominated_by((hs.b, hs.i), blocked=lambda b, i, e: (b, i) in past):
                     ctx.fail(r, fn, "header vector may overwrite the prefix vector", hs.line,
                              "%s is not incremented between the prefix vector and the header vector" % v)
                 else:
@@ -1277,15 +1260,15 @@ def rule_r9(ctx):
 
 
 def run(ctx):
-    rule_r1(ctx)
-    rule_r2(ctx)
-    rule_r3(ctx)
-    rule_r4(ctx)
-    rule_r5(ctx)
-    rule_r6(ctx)
-    rule_r7(ctx)
-    c16.rule_r7(ctx)
+    ctx.guard(rule_r1)
+    ctx.guard(rule_r2)
+    ctx.guard(rule_r3)
+    ctx.guard(rule_r4)
+    ctx.guard(rule_r5)
+    ctx.guard(rule_r6)
+    ctx.guard(rule_r7)
+    ctx.guard(c16.rule_r7)
     for rr in ctx.rules:
         if rr.id == "C16.R7":
             rr.id = "C01.R8"
-    rule_r9(ctx)
+    ctx.guard(rule_r9)
